@@ -34,12 +34,20 @@ def _kill():
     os.kill(os.getpid(), signal.SIGKILL)
 
 
-def _before(kind, sql):
+def _before(kind, sql, connection=None):
     if not STATE['enabled']:
         return False
     STATE['n'] += 1
     STATE['log'].append((kind, ' '.join(str(sql).split())[:60]))
     if STATE['at'] is not None and STATE['n'] == STATE['at'] and STATE['row'] is None:
+        if STATE['mode'] == 'interrupt' and connection is not None:
+            # SQLite itself aborts the statement part-way: the progress
+            # handler returns non-zero after a few virtual-machine steps
+            def handler():
+                STATE['fired'] = True
+                return 1
+            connection.set_progress_handler(handler, STATE.get('vm_steps', 20))
+            return False
         if STATE['mode'] == 'exc-before':
             STATE['fired'] = True
             raise Injected('injected fault before statement {}'.format(STATE['n']))
@@ -76,13 +84,13 @@ def _rows(seq, index):
 
 class Cursor(sqlite3.Cursor):
     def execute(self, sql, *args):
-        armed = _before('execute', sql)
+        armed = _before('execute', sql, self.connection)
         result = super().execute(sql, *args)
         _after(armed)
         return result
 
     def executemany(self, sql, seq):
-        armed = _before('executemany', sql)
+        armed = _before('executemany', sql, self.connection)
         result = super().executemany(sql, _rows(seq, STATE['n']))
         _after(armed)
         return result
